@@ -45,6 +45,12 @@ def opsTyped (st : State) : List (String × P String) :=
         | .err => "invalid")),
   ("typ.cmp", arg pTypeRef fun tr => arg pFlag fun dl => arg pValue fun v1 => arg pFlag fun dr => arg pValue fun v2 =>
       done (withTyped2 s tr dl v1 dr v2 fun a b => encRes encCmp (compareTV s a b))),
+  ("typ.xops", arg pTypeRef fun tr1 => arg pValue fun v1 => arg pTypeRef fun tr2 => arg pValue fun v2 =>
+      done (match asTyped s v1 tr1 true, asTyped s v2 tr2 true with
+        | .ok a, .ok b =>
+          "cmp=" ++ encRes encCmp (compareTV s a b) ++ " merge=" ++ encRes (fun tv => encValue tv.value) (mergeTV s a b)
+        | .panic, _ | _, .panic => "panic"
+        | _, _ => "invalid")),
   ("typ.merge", arg pTypeRef fun tr => arg pFlag fun dl => arg pValue fun v1 => arg pFlag fun dr => arg pValue fun v2 =>
       done (withTyped2 s tr dl v1 dr v2 fun a b => encRes (fun tv => encValue tv.value) (mergeTV s a b))),
   ("typ.remove", arg pTypeRef fun tr => arg pFlag fun dup => arg pValue fun v => arg pPaths fun ps =>
